@@ -126,13 +126,17 @@ def affine_readoff(draw, n_extra_ok=0):
     return off, T, N
 
 
-def rel_err(a, b):
+def rel_err(a, b, scale=1.0):
+    """max |a - b| relative to max(|b|, scale): the problems are built from O(1) integers, so `scale` = 1 is the
+    magnitude below which an expected value counts as zero (an exactly zero posterior mean occurs on the lattice)."""
     a, b = np.asarray(a, dtype=float), np.asarray(b, dtype=float)
     if a.shape != b.shape:
         return float("inf")
     if not np.all(np.isfinite(a)):
         return float("inf")
-    return float(np.max(np.abs(a - b)) / max(1e-300, np.max(np.abs(b)), 1e-12))
+    if a.size == 0:
+        return 0.0
+    return float(np.max(np.abs(a - b)) / max(float(np.max(np.abs(b))), scale))
 
 
 def form_tag(spec):
